@@ -5,7 +5,7 @@ from engine.pysym import core
 from engine.pysym.core import SR, Dual, assume
 from engine.pysym.runner import Case, close, is_nan, run_cases
 from engine.llir.xr import rv as q
-from harness.C01 import modules, make, sym_vector, set_params, domain
+from harness.C01 import modules, make, sym_vector, set_params, domain, pin_params
 
 
 def central_diff(f, x, h):
@@ -17,10 +17,12 @@ class JacCase(Case):
     prop = 'C02'
     tol = 1e-4
 
-    def __init__(self, clsname, ctor=None):
-        self.cls, self.ctor = clsname, dict(ctor or {})
-        self.name = 'jacobian:%s%s' % (clsname, '(%s)' % ','.join('%s=%s' % kv for kv in sorted(self.ctor.items())) if self.ctor else '')
-        self.params = dict(cls=clsname, ctor=self.ctor)
+    def __init__(self, clsname, ctor=None, pin=None, xmin=0.01):
+        self.cls, self.ctor, self.pin, self.xmin = clsname, dict(ctor or {}), dict(pin or {}), xmin
+        self.name = 'jacobian:%s%s%s%s' % (clsname, '(%s)' % ','.join('%s=%s' % kv for kv in sorted(self.ctor.items())) if self.ctor else '',
+                                         '[%s]' % ','.join('%s=%s' % kv for kv in sorted(self.pin.items())) if self.pin else '',
+                                         '[x>=%g]' % xmin if xmin != 0.01 else '')
+        self.params = dict(cls=clsname, ctor=self.ctor, pin=self.pin, xmin=xmin)
         self.functions = ['hydrodiy.stat.transform.%s.forward/jacobian' % clsname]
 
     def modules(self):
@@ -28,12 +30,12 @@ class JacCase(Case):
 
     def inputs(self):
         tr = make(self.cls, self.ctor)
-        P = sym_vector(tr.params, 'p')
-        C = sym_vector(tr.constants, 'c')
+        P = pin_params(sym_vector(tr.params, 'p'), self.pin)
+        C = pin_params(sym_vector(tr.constants, 'c'), self.pin)
         if self.cls == 'Softmax':
             xs = [SR(z3.Real('x%d' % i)) for i in range(2)]
             for v in xs:
-                assume(z3.And(v.e >= q(0.01), v.e <= 1))
+                assume(z3.And(v.e >= q(self.xmin), v.e <= 1))
             assume(xs[0].e + xs[1].e <= q(0.99))
         else:
             xs = [SR(z3.Real('x0')), SR(z3.Real('x1'))]
@@ -102,11 +104,54 @@ class JacCase(Case):
         return res
 
 
+class DeclaredBounds(Case):
+    """the DECLARED parameter bounds keep the transform increasing: parameters range over everything the real Vector accepts (no harness
+    restriction such as scale >= 0.001), x over the bare domain; only positivity of the jacobian is asserted"""
+    prop = 'C02'
+    tol = 1e-4
+
+    def __init__(self, clsname):
+        self.cls = clsname
+        self.name = 'declared-bounds:%s' % clsname
+        self.params = dict(cls=clsname)
+        self.functions = ['hydrodiy.stat.transform.%s.__init__/jacobian' % clsname]
+
+    def modules(self):
+        return modules()
+
+    def inputs(self):
+        tr = make(self.cls, {})
+        P = sym_vector(tr.params, 'p')
+        C = sym_vector(tr.constants, 'c')
+        x = SR(z3.Real('x0'))
+        for c in domain(self.cls, P, C, x, light=True):
+            assume(c)
+        return dict(P=P, C=C, x=[x])
+
+    def run(self, I):
+        tr = make(self.cls, {})
+        set_params(tr, I['P'], I['C'])
+        sym = isinstance(I['x'][0], SR)
+        x = core.symarray(I['x']) if sym else np.array(I['x'], dtype=float)
+        jac = list(np.asarray(tr.jacobian(x), dtype=object).flat)[0]
+        # what the object actually holds after the assignment (a bound that clips shows here)
+        held = [v for v in np.asarray(tr.params.values, dtype=object).flat]
+        return dict(jac=jac, held=held)
+
+    def spec(self, I, O, err):
+        res = [('no-exception', err is None)]
+        if err is not None:
+            return res
+        return res + [('jacobian>0-over-declared-bounds', (not is_nan(O['jac'])) and O['jac'] > 0)]
+
+
 def cases(tier):
     names = ['Identity', 'Logit', 'Log', 'BoxCox2', 'BoxCox1lam', 'BoxCox1nu', 'BoxCox2sym', 'YeoJohnson', 'LogSinh', 'Reciprocal', 'Softmax',
              'Sinh', 'Manly']
     out = [JacCase(n) for n in names]
-    out += [JacCase('Log', dict(base=10.0)), JacCase('BoxCox2', dict(minilam=-1.0)), JacCase('Reciprocal', dict(mininu=0.5))]
+    out += [JacCase('Log', dict(base=10.0)), JacCase('BoxCox2', dict(minilam=-1.0)), JacCase('Reciprocal', dict(mininu=0.5)),
+            JacCase('LogSinh', pin=dict(loga=0.0, logb=0.0)), JacCase('Softmax', xmin=2.0 ** -20)]
+    out += [DeclaredBounds(n) for n in names if n != 'Softmax']
     if tier == 'thorough':
         out += [JacCase('Log', dict(base=2.0)), JacCase('Log', dict(mininu=0.5)), JacCase('BoxCox2sym', dict(minilam=-1.0)), JacCase('BoxCox1nu', dict(minilam=-1.0)),
                 JacCase('BoxCox2', dict(mininu=0.25))]
